@@ -689,6 +689,27 @@ def step (st : St) (line : String) : St × String :=
   | ["token", h] => (st, tohex (cleanedToken (unhex h)))
   | ["esctext", h] => (st, tohex (Serialize.escText (unhex h)))
   | ["escattr", h] => (st, tohex (Serialize.escAttr (unhex h)))
+  | ["patdiff"] =>
+    -- failing-input search for the pattern theorems: per type a word on which the library's expression
+    -- and the schema's differ (key:word:impl-verdict:schema-verdict; `-` when no schema pattern)
+    let look := fun (k : Nat) => (Gen.specPatternsS.find? (·.1 == k)).map (·.2)
+    let rows := Gen.patternsS.filterMap fun (k, i) =>
+      match look k with
+      | none => some s!"{k}:-:-:-"
+      | some sp =>
+        match SRE.witness i sp with
+        | some w => some s!"{k}:{",".intercalate (w.map toString)}:{SRE.smatch i w}:{SRE.smatch sp w}"
+        | none => if SRE.equiv i sp then none else some s!"{k}:?:?:?"
+    let missing := Gen.specPatternsS.filterMap fun (k, _) =>
+      if (Gen.patternsS.any (·.1 == k)) then none else some s!"{k}:!:!:!"
+    (st, ";".intercalate (rows ++ missing))
+  | ["specmatch", k, w] =>
+    match k.toNat? with
+    | some k =>
+      match (Gen.specPatternsS.find? (·.1 == k)).map (·.2) with
+      | some sp => (st, if SRE.smatch sp ((unhex w).toList.map (·.val.toNat)) then "yes" else "no")
+      | none => (st, "none")
+    | none => (st, "bad-op")
   | ["accepts", t, w] =>
     match t.toNat? with
     | some t =>
@@ -755,6 +776,25 @@ def stepAll (st : St) (line : String) : St × String :=
     match i.toNat?, nid.toNat? with
     | some i, some nid => stepDot st i (unhex k) nid arg
     | _, _ => (st, "bad-op")
+  | ["replx", i, sel, idx, new, n] =>
+    -- replace_child(callable, new, index): the selector runs over the ordered view; sel = 0: every child, else: name
+    match i.toNat?, sel.toNat?, idx.toInt?, new.toNat?, n.toNat? with
+    | some i, some sel, some idx, some new, some n =>
+      match st.insts[i]? with
+      | none => (st, "bad-inst")
+      | some inst =>
+        let (cs, inst') := childrenOf inst
+        let st := { st with insts := st.insts.insert i inst' }
+        let olds := cs.filter fun c => sel == 0 || (match st.insts[c]? with
+          | some ci => (ci.info.map (·.name)) == some sel
+          | none => false)
+        if olds.isEmpty then (st, "err:notAChild") else
+        let len : Int := olds.length
+        let j : Int := if idx < 0 then len + idx else idx
+        if j < 0 || j ≥ len then (st, "err:internal:IndexError") else
+        let (s', r) := step st s!"repl {i} {olds[j.toNat]!} {new} {n}"
+        (s', firstPart r)
+    | _, _, _, _, _ => (st, "bad-op")
   | ["getx", i, k] =>
     -- e.xml_x read access: the first child of that name in insertion order, else None / AttributeError
     match i.toNat? with
